@@ -1055,8 +1055,9 @@ func (p *partition) handleReplicationResponse(msg *nats.Msg) int {
 		return 0
 	}
 
-	// We should have at least 28 bytes for headers.
-	if len(data) <= 28 {
+	// We should have at least 28 bytes for headers and every message must be
+	// complete and intact.
+	if len(data) <= 28 || !commitlog.ValidMessageSet(data) {
 		p.srv.logger.Warnf("Invalid replication response for partition %s", p)
 		return 0
 	}
